@@ -216,7 +216,8 @@ impl Tzif {
         let result = db.transition_times.binary_search(epoch_seconds);
 
         match result {
-            Ok(idx) => Ok(get_timezone_offset(db, idx - 1)),
+            // At the transition second itself the new local time type is already in force.
+            Ok(idx) => Ok(get_timezone_offset(db, idx)),
             // <https://datatracker.ietf.org/doc/html/rfc8536#section-3.2>
             // If there are no transitions, local time for all timestamps is specified by the TZ
             // string in the footer if present and nonempty; otherwise, it is
@@ -231,7 +232,11 @@ impl Tzif {
                     })
                 }
             }
-            Err(idx) if idx == 0 => Ok(get_timezone_offset(db, idx)),
+            // RFC 8536: timestamps before the first transition use the first local time type.
+            Err(idx) if idx == 0 => Ok(TimeZoneOffset {
+                offset: db.local_time_type_records[0].utoff.0,
+                transition_epoch: None,
+            }),
             Err(idx) => {
                 if db.transition_times.len() <= idx {
                     // The transition time provided is beyond the length of
